@@ -3,7 +3,12 @@
 Correspondence: per faulted bus the columns R_EQUIV/X_EQUIV/IKSS1/SKSS/KAPPA/IP/R_EQUIV_OHM/X_EQUIV_OHM of net._ppc
 and the ext_grid shunt (GS,BS) against C18.Model (square roots / exp passed as oracles); the diagonal Zbus entry the
 impl uses against an exact rational solve of the impl's own Ybus (captured white-box).
-Oracle: the IEC relations on res_bus_sc, an independently assembled network of the elements' short-circuit models
+The radial chain of C18.ChainModel: the model's Ybus built from the element tables through the per-unit pipeline against
+the Ybus of the real run, the ohmic series formula against rk_ohm/xk_ohm, the impl's Zbus column as a solution of the model's Ybus,
+the branch currents of a fault (line and transformer) against the model of _calc_branch_currents_complex; 1ph: IKSS1 and the ohmic
+columns of both sequences against the model of _calc_ikss_1ph.
+Oracle: the IEC relations on res_bus_sc (3ph/2ph/1ph), Kirchhoff's current law on res_line_sc/res_trafo_sc, an independently assembled
+zero-sequence network, an independently assembled network of the elements' short-circuit models
 (ext_grid, line with end temperature, 2W transformer with K_T, synchronous generator with K_G) for the Thevenin impedance, and metamorphic runs
 (sn_mva, inverse_y, bus subsets, 2ph vs 3ph)."""
 import copy, json, math, os
@@ -13,16 +18,20 @@ import pandapower as pp
 import pandapower.shortcircuit as sc
 from vf import coqrun as cq
 
-RULE = ("3-8 bus nets: 110 kV ext_grid (S_sc 500-5000 MVA, R/X 0.1-0.4), 1-2 network transformers 110/20 kV, 2-6 MV buses "
-        "joined by a random tree + chords of lines (random r/x/length/parallel/end temperature), optional second ext_grid at an "
-        "MV bus, optional 20/0.4 kV transformer + LV bus, optional synchronous generator, in 40 % 2-3 current-source sgens at different MV buses; options case min/max, fault 3ph/2ph, "
-        "kappa method B/C, topology auto/radial/meshed, fault impedance, inverse_y, bus subsets, sn_mva 1/100; "
-        "non-trivial = meshed (a chord or two infeeds) or a fault impedance or an LV bus")
+RULE = ("3-8 bus nets: 110 kV ext_grid (S_sc 500-5000 MVA, R/X 0.1-0.4, zero-sequence ratios x0x/r0x0), 1-2 network transformers 110/20 kV "
+        "(vector groups YNyn/YNd/Dyn with vk0/vkr0/mag0/si0 data), 2-6 MV buses joined by a random tree + chords of lines (random r/x/r0/x0/c0/"
+        "length/parallel/end temperature), optional second ext_grid at an MV bus, optional 20/0.4 kV transformer (Dyn/Yyn/YNyn) + LV bus, "
+        "optional synchronous generator, in 40 % 2-3 current-source sgens at different MV buses; options case min/max, fault 3ph/2ph/1ph, "
+        "kappa method B/C, topology auto/radial/meshed, fault impedance, inverse_y, bus subsets, sn_mva 1/100; in 60 % a second run with "
+        "branch_results for one faulted bus (Kirchhoff at every bus); plus radial two-voltage-level chains ext_grid-line-transformer-line "
+        "(110/20, 110/10, 20/10, 20/0.4 kV, rated transformer voltages unequal to the bus voltages, sn_mva in {0.5,1,10,37,100}); "
+        "non-trivial = meshed (a chord or two infeeds) or a fault impedance or an LV bus or a chain")
 ASSUMPTIONS = ["sqrt and exp are oracles passed to the rational model (math.sqrt / math.exp), residuals of s3*s3=3, s2*s2=2, zabs^2=r^2+x^2 below 1e-15",
-               "numpy/scipy inverse and sparse LU are compared with an exact rational solve of the same Ybus (tolerance 1e-9)",
-               "40 % of the nets carry 2-3 current-source sgens (sn_mva, k); for case max the ikss/2ph-ratio relations, stated without current-source contributions, are then checked on the voltage-source column IKSS1 through the model only; no motors; 1ph faults are not generated"]
-TRUSTED = ["white-box capture of ppci['internal']['Ybus'] by wrapping pandapower.shortcircuit.calc_sc._calc_ybus in the harness process",
-           "independent assembly of the short-circuit network in harness/props/c18.py (numpy complex)"]
+               "numpy/scipy inverse and sparse LU are compared with an exact rational solve of the same Ybus (tolerance 1e-9 per component; for 1ph runs 1e-9 relative to |Zkk|, the zero-sequence network of an isolated MV level being purely capacitive)",
+               "40 % of the nets carry 2-3 current-source sgens (sn_mva, k); for case max the ikss/2ph-ratio/1ph relations, stated without current-source contributions, are then checked on the voltage-source column IKSS1 through the model only, and the Kirchhoff check of the branch results is skipped; no motors; the independent zero-sequence network covers the vector groups Dyn, Yyn, YNd, YNyn and nets without generators",
+               "branch results of 2ph/1ph faults carry magnitudes only: they are checked at faulted stub buses (one branch, no source)"]
+TRUSTED = ["white-box capture of ppci['internal']['Ybus'] (positive and zero sequence) by wrapping pandapower.shortcircuit.calc_sc._calc_ybus and of the zero-sequence bus rows by wrapping _calc_ikss_1ph in the harness process",
+           "independent assembly of the short-circuit networks in harness/props/c18.py (numpy complex; zero sequence in siemens with an explicit star node for YNyn)"]
 TOL = 1e-8
 
 
@@ -35,7 +44,9 @@ def sc_net(rng, sn_mva=1.0):
     net = pp.create_empty_network(sn_mva=sn_mva)
     hv = pp.create_bus(net, vn_kv=110.0)
     pp.create_ext_grid(net, hv, s_sc_max_mva=float(rng.choice([500, 1000, 2500, 5000])), s_sc_min_mva=float(rng.choice([300, 400, 450])),
-                       rx_max=rng.choice([0.1, 0.25, 0.4]), rx_min=rng.choice([0.1, 0.125, 0.35]))   # never exactly 0.3: the method-B threshold
+                       rx_max=rng.choice([0.1, 0.25, 0.4]), rx_min=rng.choice([0.1, 0.125, 0.35]),   # never exactly 0.3: the method-B threshold
+                       x0x_max=rng.choice([1.0, 1.5, 3.0]), r0x0_max=rng.choice([0.1, 0.25]), x0x_min=rng.choice([1.0, 1.25]),
+                       r0x0_min=rng.choice([0.125, 0.35]))
     nmv = rng.randint(2, 6)
     mv = [pp.create_bus(net, vn_kv=20.0) for _ in range(nmv)]
     edges = [(mv[rng.randrange(0, i)], mv[i]) for i in range(1, nmv)]
@@ -47,16 +58,20 @@ def sc_net(rng, sn_mva=1.0):
     for a, b in edges:
         pp.create_line_from_parameters(net, a, b, length_km=rng.randint(2, 40) / 8, r_ohm_per_km=rng.randint(4, 40) / 64,
                                        x_ohm_per_km=rng.randint(6, 30) / 64, c_nf_per_km=rng.choice([0, 200]), max_i_ka=0.4,
-                                       parallel=rng.choice([1, 1, 2]), endtemp_degree=float(rng.choice([20, 80, 160])))
+                                       parallel=rng.choice([1, 1, 2]), endtemp_degree=float(rng.choice([20, 80, 160])),
+                                       r0_ohm_per_km=rng.randint(8, 80) / 64, x0_ohm_per_km=rng.randint(12, 90) / 64,
+                                       c0_nf_per_km=float(rng.choice([50, 100, 150])))
     for t in range(rng.choice([1, 1, 2])):
-        pp.create_transformer(net, hv, mv[t % nmv], std_type=rng.choice(["25 MVA 110/20 kV", "40 MVA 110/20 kV", "63 MVA 110/20 kV"]),
-                              parallel=rng.choice([1, 1, 2]))
+        i = pp.create_transformer(net, hv, mv[t % nmv], std_type=rng.choice(["25 MVA 110/20 kV", "40 MVA 110/20 kV", "63 MVA 110/20 kV"]),
+                                  parallel=rng.choice([1, 1, 2]))
+        _zero_seq_trafo(net, rng, i, ["YNyn", "YNd", "YNyn", "Dyn"])
     if rng.random() < 0.3:
         pp.create_ext_grid(net, rng.choice(mv), s_sc_max_mva=float(rng.choice([100, 250])), s_sc_min_mva=float(rng.choice([60, 80])),
-                           rx_max=0.35, rx_min=0.4)
+                           rx_max=0.35, rx_min=0.4, x0x_max=2.0, r0x0_max=0.2, x0x_min=1.5, r0x0_min=0.25)
     if rng.random() < 0.3:
         lv = pp.create_bus(net, vn_kv=0.4)
-        pp.create_transformer(net, rng.choice(mv), lv, std_type=rng.choice(["0.4 MVA 20/0.4 kV", "0.63 MVA 20/0.4 kV"]))
+        i = pp.create_transformer(net, rng.choice(mv), lv, std_type=rng.choice(["0.4 MVA 20/0.4 kV", "0.63 MVA 20/0.4 kV"]))
+        _zero_seq_trafo(net, rng, i, ["Dyn", "Dyn", "Yyn", "YNyn"])
     has_gen = rng.random() < 0.25
     if has_gen:
         pp.create_gen(net, rng.choice(mv), p_mw=2.0, vn_kv=rng.choice([20.0, 21.0]), sn_mva=float(rng.choice([5, 10])),
@@ -73,8 +88,18 @@ def sc_net(rng, sn_mva=1.0):
     return net, meshed
 
 
+def _zero_seq_trafo(net, rng, i, groups):
+    """zero-sequence data of transformer i (the std types carry a vector group but not all zero-sequence columns)"""
+    net.trafo.loc[i, "vector_group"] = rng.choice(groups)
+    net.trafo.loc[i, "vk0_percent"] = float(net.trafo.vk_percent.at[i]) * rng.choice([0.75, 1.0])
+    net.trafo.loc[i, "vkr0_percent"] = float(net.trafo.vkr_percent.at[i]) * rng.choice([1.0, 1.5])
+    net.trafo.loc[i, "mag0_percent"] = float(rng.choice([10, 50, 100]))
+    net.trafo.loc[i, "mag0_rx"] = rng.choice([0.0, 0.25])
+    net.trafo.loc[i, "si0_hv_partial"] = rng.choice([0.5, 0.75, 0.9])
+
+
 def rand_opts(rng):
-    o = dict(case=rng.choice(["max", "min"]), fault=rng.choice(["3ph", "3ph", "2ph"]), kappa_method=rng.choice(["B", "C"]),
+    o = dict(case=rng.choice(["max", "min"]), fault=rng.choice(["3ph", "3ph", "2ph", "1ph"]), kappa_method=rng.choice(["B", "C"]),
              topology=rng.choice(["auto", "radial", "meshed"]), ip=True, inverse_y=rng.random() < 0.5,
              lv_tol_percent=rng.choice([10, 6]))
     if rng.random() < 0.3:
@@ -94,11 +119,20 @@ def run_sc(net, bus=None, **o):
         orig(ppci)
         box["Y"].append(np.asarray(ppci["internal"]["Ybus"].todense() if hasattr(ppci["internal"]["Ybus"], "todense") else ppci["internal"]["Ybus"]))
 
+    orig1 = m._calc_ikss_1ph
+
+    def wrap1(net_, ppci, ppci_0, bus_idx):
+        orig1(net_, ppci, ppci_0, bus_idx)
+        box["ppci0_bus"] = ppci_0["bus"].copy()
+        box["ppci_bus"] = ppci["bus"].copy()     # after a 1ph run net._ppc is the ZERO-sequence ppc (pd2ppc._init_ppc)
+
     m._calc_ybus = wrap
+    m._calc_ikss_1ph = wrap1
     try:
         sc.calc_sc(net, bus=bus, **o)
     finally:
         m._calc_ybus = orig
+        m._calc_ikss_1ph = orig1
     return box
 
 
@@ -197,6 +231,360 @@ def independent_thevenin(net, case, lv_tol_percent=10):
     return {b: Z[idx[b], idx[b]] * vn[b] ** 2 / sb for b in net.bus.index}
 
 
+def independent_sources(net, case, lv_tol_percent=10):
+    """{bus: admittance in siemens of the voltage sources (ext_grid, generator with K_G) connected to it}"""
+    vn = {b: float(net.bus.vn_kv.at[b]) for b in net.bus.index}
+
+    def cfac(b, which):
+        if vn[b] < 1.0:
+            return (1.1 if lv_tol_percent == 10 else 1.05) if which == "max" else 0.95
+        return 1.1 if which == "max" else 1.0
+
+    ys = {b: 0j for b in net.bus.index}
+    for r in net.ext_grid.itertuples():
+        if r.in_service:
+            z = cfac(r.bus, case) * vn[r.bus] ** 2 / getattr(r, "s_sc_%s_mva" % case)
+            rx = getattr(r, "rx_%s" % case)
+            x = z / math.sqrt(1 + rx * rx)
+            ys[r.bus] += 1 / complex(rx * x, x)
+    for r in net.gen.itertuples():
+        if r.in_service:
+            zg = complex(r.rdss_ohm, r.xdss_pu * r.vn_kv ** 2 / r.sn_mva)
+            kg = vn[r.bus] / (r.vn_kv * (1 + (0.0 if r.pg_percent != r.pg_percent else r.pg_percent) / 100)) * cfac(r.bus, "max") / \
+                (1 + r.xdss_pu * math.sqrt(max(0.0, 1 - r.cos_phi ** 2)))
+            ys[r.bus] += 1 / (kg * zg)
+    return ys
+
+
+def independent_thevenin_zero(net, case, lv_tol_percent=10):
+    """{bus: zero-sequence Thevenin impedance in ohm}: nodal analysis in SIEMENS referred to the bus voltages, transformers
+    as T equivalents with an explicit star node (YNyn), a grounded winding (Dyn / Yyn at lv, YNd at hv); None outside scope"""
+    if len(net.gen) or len(net.trafo3w) or len(net.impedance) or len(net.ward) or len(net.xward) or len(net.motor):
+        return None
+    if not set(net.trafo.vector_group.values) <= {"Dyn", "YNyn", "Yyn", "YNd"}:
+        return None
+    idx = {b: i for i, b in enumerate(net.bus.index)}
+    n = len(idx) + int((net.trafo.vector_group == "YNyn").sum())
+    Y = np.zeros((n, n), dtype=complex)
+    vn = {b: float(net.bus.vn_kv.at[b]) for b in net.bus.index}
+    star = len(idx)
+
+    def cfac(b, which):
+        if vn[b] < 1.0:
+            return (1.1 if lv_tol_percent == 10 else 1.05) if which == "max" else 0.95
+        return 1.1 if which == "max" else 1.0
+
+    def link(i, j, y, ratio=1.0):     # admittance y (on the j side) behind an ideal transformer ratio:1 at i
+        Y[i, i] += y / ratio ** 2; Y[j, j] += y; Y[i, j] -= y / ratio; Y[j, i] -= y / ratio
+
+    for r in net.ext_grid.itertuples():
+        if not r.in_service:
+            continue
+        z = cfac(r.bus, case) * vn[r.bus] ** 2 / getattr(r, "s_sc_%s_mva" % case)
+        rx = getattr(r, "rx_%s" % case)
+        x0 = getattr(r, "x0x_%s" % case) * z / math.sqrt(1 + rx * rx)
+        Y[idx[r.bus], idx[r.bus]] += 1 / complex(getattr(r, "r0x0_%s" % case) * x0, x0)
+    for r in net.line.itertuples():
+        if not r.in_service:
+            continue
+        rr = r.r0_ohm_per_km * r.length_km / r.parallel
+        if case == "min":
+            rr *= 1 + 0.004 * (r.endtemp_degree - 20)
+        link(idx[r.from_bus], idx[r.to_bus], 1 / complex(rr, r.x0_ohm_per_km * r.length_km / r.parallel))
+        bc = 2 * math.pi * net.f_hz * r.c0_nf_per_km * 1e-9 * r.length_km * r.parallel
+        Y[idx[r.from_bus], idx[r.from_bus]] += 0.5j * bc
+        Y[idx[r.to_bus], idx[r.to_bus]] += 0.5j * bc
+    for r in net.trafo.itertuples():
+        if not r.in_service:
+            continue
+        xt_rel = math.sqrt(r.vk_percent ** 2 - r.vkr_percent ** 2) / 100
+        kt = 0.95 * cfac(r.lv_bus, "max") / (1 + 0.6 * xt_rel)
+        vg = r.vector_group
+        side_kv = r.vn_hv_kv if vg == "YNd" else r.vn_lv_kv          # the side the zero-sequence impedance is referred to
+        zb = side_kv ** 2 / r.sn_mva
+        zk = complex(r.vkr0_percent, math.sqrt(r.vk0_percent ** 2 - r.vkr0_percent ** 2)) / 100 * zb * kt / r.parallel
+        zm_abs = r.vk0_percent / 100 * zb * r.mag0_percent            # mag0_percent is the ratio Zm0 / Zk0
+        xm = zm_abs / math.sqrt(r.mag0_rx ** 2 + 1)
+        zm = complex(xm * r.mag0_rx, xm) / r.parallel
+        i, j = idx[r.hv_bus], idx[r.lv_bus]
+        if vg == "Dyn":
+            Y[j, j] += 1 / zk
+        elif vg == "Yyn":
+            Y[j, j] += 1 / (zk + zm)
+        elif vg == "YNd":
+            Y[i, i] += 1 / zk
+        else:   # YNyn: hv bus -(ideal)- si0*zk - star - (1-si0)*zk - lv bus, star - zm - ground (lv referred)
+            ratio = r.vn_hv_kv / r.vn_lv_kv
+            link(i, star, 1 / (r.si0_hv_partial * zk), ratio)
+            link(star, j, 1 / ((1 - r.si0_hv_partial) * zk))
+            Y[star, star] += 1 / zm
+            star += 1
+    try:
+        Z = np.linalg.inv(Y)
+    except np.linalg.LinAlgError:
+        return None
+    return {b: Z[idx[b], idx[b]] for b in net.bus.index}
+
+
+def crel(a, b):
+    return abs(a - b) / max(1e-12, abs(a), abs(b))
+
+
+def _bus_1ph(ctx, net, o, b, row, row0, res, thev, thev0, c, c_spec, vn, sn, rf, xf, terms, pend, desc, zkk, zkk0):
+    """single-phase fault at bus b: IEC relation on the result table, independent positive- and zero-sequence networks,
+    model of _calc_ikss_1ph"""
+    from pandapower.pypower.idx_bus_sc import R_EQUIV, X_EQUIV, IKSS1, IKSS2, R_EQUIV_OHM, X_EQUIV_OHM
+    s3 = math.sqrt(3.0)
+    ik, rk, xk, rk0, xk0 = (float(res.at[b, x]) for x in ("ikss_ka", "rk_ohm", "xk_ohm", "rk0_ohm", "xk0_ohm"))
+    cs = o["case"] == "max" and bool(len(net.sgen)) and bool(net.sgen.in_service.any())
+    z1, z0 = complex(rk, xk), complex(rk0, xk0)
+    bad = []
+    if not (math.isfinite(rk0) and math.isfinite(xk0)):
+        ctx.count("1ph_infinite_z0")
+        return
+    exp_ik = s3 * c_spec * vn / abs(2 * z1 + z0)
+    if not cs and rel(ik, exp_ik) > TOL:
+        bad.append("1ph ikss_ka=%r but sqrt3*c*Un/|2 Zk + Z0k| = %r" % (ik, exp_ik))
+    if thev is not None:
+        zi = thev[b] + complex(rf, xf)
+        if crel(zi, z1) > 1e-7:
+            bad.append("1ph: positive-sequence Thevenin impedance %r ohm, independently assembled network gives %r" % (z1, zi))
+        else:
+            ctx.count("independent_thevenin_ok")
+    if thev0 is not None:
+        zi0 = thev0[b] + complex(rf, xf)
+        if crel(zi0, z0) > 1e-7:
+            bad.append("1ph: zero-sequence Thevenin impedance %r ohm, independently assembled network gives %r" % (z0, zi0))
+        else:
+            ctx.count("independent_zero_sequence_ok")
+    for w in bad:
+        ctx.violation("spec", "bus %d: %s" % (b, w), desc)
+    if row0 is not None:
+        a1 = complex(float(row[R_EQUIV]), float(row[X_EQUIV]))
+        a0 = complex(float(row0[R_EQUIV]), float(row0[X_EQUIV]))
+        terms.append("run_1ph %s (mkC %s %s) (mkC %s %s) %s %s %s %s" % (
+            cq.q(c), cq.q(a1.real), cq.q(a1.imag), cq.q(a0.real), cq.q(a0.imag), cq.q(abs(2 * a1 + a0)), cq.q(vn), cq.q(sn), cq.q(s3)))
+        pend.append(("1ph bus columns", [float(row0[IKSS1]), [float(row[R_EQUIV_OHM]), float(row[X_EQUIV_OHM])],
+                                         [float(row0[R_EQUIV_OHM]), float(row0[X_EQUIV_OHM])]], desc))
+        for what, zz, aa in (("positive", zkk, a1), ("zero", zkk0, a0)):
+            if zz is not None:
+                terms.append("run_rx %s %s %s %s %s %s" % (cq.q(zz.real), cq.q(zz.imag), cq.q(rf), cq.q(xf), cq.q(vn), cq.q(sn)))
+                # tolerance relative to |Zkk| (a capacitively grounded zero-sequence network has |R| << |X|)
+                pend.append(("1ph %s-sequence R_EQUIV/X_EQUIV from the exact inverse of the impl's Ybus" % what, [aa.real, aa.imag], desc,
+                             1e-9 * abs(aa)))
+
+
+
+# ------------------------------------------------------------------ radial two-voltage-level chain (C18/ChainModel.v)
+def chain_net(rng, sn_mva):
+    """ext_grid - line - transformer (K_T) - line; dyadic data, rated transformer voltages unequal to the bus voltages"""
+    vhv = rng.choice([110.0, 20.0])
+    vlv = rng.choice([20.0, 10.0]) if vhv == 110.0 else rng.choice([10.0, 0.4])
+    net = pp.create_empty_network(sn_mva=sn_mva)
+    b = [pp.create_bus(net, vn_kv=v) for v in (vhv, vhv, vlv, vlv)]
+    pp.create_ext_grid(net, b[0], s_sc_max_mva=float(rng.choice([250, 1000, 4000])), s_sc_min_mva=float(rng.choice([100, 200])),
+                       rx_max=rng.choice([0.125, 0.25, 0.75]), rx_min=rng.choice([0.25, 0.5]))
+    for f, t in ((0, 1), (2, 3)):
+        pp.create_line_from_parameters(net, b[f], b[t], length_km=rng.randint(2, 40) / 8, r_ohm_per_km=rng.randint(4, 40) / 64,
+                                       x_ohm_per_km=rng.randint(6, 30) / 64, c_nf_per_km=rng.choice([0, 200]), max_i_ka=0.4,
+                                       parallel=rng.choice([1, 1, 2]), endtemp_degree=float(rng.choice([20, 80, 160])))
+    pp.create_transformer_from_parameters(net, b[1], b[2], sn_mva=float(rng.choice([0.63, 16, 25, 40])),
+                                          vn_hv_kv=vhv * rng.choice([1.0, 1.0, 1.05, 0.975]), vn_lv_kv=vlv * rng.choice([1.0, 1.05, 1.025]),
+                                          vk_percent=rng.choice([6.0, 10.0, 12.5]), vkr_percent=rng.choice([0.25, 0.5, 1.0]),
+                                          pfe_kw=10.0, i0_percent=0.1, parallel=rng.choice([1, 1, 2]))
+    return net
+
+
+def chain_terms(net, o, ppc):
+    """Gallina terms of the chain (element data + oracles) for the base ppc['baseMVA']"""
+    from pandapower.pypower.idx_bus_sc import C_MAX, C_MIN
+    bl = net._pd2ppc_lookups["bus"]
+
+    def dq(x):       # decimal inputs (1.1, 115.5, 0.63 ...) as short rationals; the float differs by < 1e-15 relative
+        return cq.q(F(repr(round(float(x), 12))))
+
+    def oq(x):       # square-root oracles rounded to 40 bits (relative error 1e-12)
+        return cq.q(x, bits=40)
+
+    sn = float(ppc["baseMVA"])
+    case = o["case"]
+    eg = net.ext_grid.iloc[0]
+    c = float(ppc["bus"][bl[eg.bus], C_MAX if case == "max" else C_MIN])
+    rx = float(eg["rx_%s" % case])
+
+    def line(i):
+        r = net.line.iloc[i]
+        kt = 1 + 0.004 * (float(r.endtemp_degree) - 20) if case == "min" else 1.0
+        return "{| l_r := %s; l_x := %s; l_len := %s; l_par := %s; l_ktemp := %s |}" % (
+            dq(float(r.r_ohm_per_km)), dq(float(r.x_ohm_per_km)), dq(float(r.length_km)), dq(float(r.parallel)), dq(kt))
+
+    t = net.trafo.iloc[0]
+    vhv, vlv = float(net.bus.vn_kv.iloc[0]), float(net.bus.vn_kv.iloc[3])
+    cmax = float(ppc["bus"][bl[t.lv_bus], C_MAX])
+    tap_lv = (float(t.vn_lv_kv) / vlv) ** 2 * sn
+    z_sc = float(t.vk_percent) / 100. / float(t.sn_mva) * tap_lv
+    r_sc = float(t.vkr_percent) / 100. / float(t.sn_mva) * tap_lv
+    zt, rt = float(t.vk_percent) / 100 / float(t.sn_mva), float(t.vkr_percent) / 100 / float(t.sn_mva)
+    orc = "{| o_sq := %s; o_xsc := %s; o_xt := %s |}" % (oq(math.sqrt(rx * rx + 1)), oq(math.sqrt(z_sc ** 2 - r_sc ** 2)),
+                                                      oq(math.sqrt(zt ** 2 - rt ** 2)))
+    n = ("{| ch_eg := {| eg_c := %s; eg_ssc := %s; eg_rx := %s |}; ch_l1 := %s; "
+         "ch_t := {| t_sn := %s; t_vnh := %s; t_vnl := %s; t_vk := %s; t_vkr := %s; t_par := %s; t_cmax := %s |}; ch_l2 := %s; "
+         "ch_vhv := %s; ch_vlv := %s |}") % (
+        dq(c), dq(float(eg["s_sc_%s_mva" % case])), dq(rx), line(0), dq(float(t.sn_mva)), dq(float(t.vn_hv_kv)),
+        dq(float(t.vn_lv_kv)), dq(float(t.vk_percent)), dq(float(t.vkr_percent)), dq(float(t.parallel)), dq(cmax), line(1),
+        dq(vhv), dq(vlv))
+    xk = math.sqrt(float(t.vk_percent) ** 2 - float(t.vkr_percent) ** 2)
+    return n, orc, sn, oq(math.sqrt(rx * rx + 1)), oq(xk)
+
+
+def chain_case(ctx, rng, terms, pend):
+    """correspondence of C18.ChainModel: the model's Ybus (from the element data through the per-unit pipeline) against the
+    Ybus of the real run, the ohmic series formula against rk_ohm/xk_ohm, the residual of the impl's Zbus column against the
+    model's Ybus; oracle: the results for a second net.sn_mva"""
+    sn1 = float(rng.choice([1, 1, 10, 100, 0.5, 37]))
+    net = chain_net(rng, sn1)
+    o = dict(case=rng.choice(["max", "min"]), fault="3ph", inverse_y=rng.random() < 0.5, lv_tol_percent=rng.choice([10, 6]),
+             branch_results=True)
+    desc = {"net": pp.to_json(net), "opts": o, "chain": True}
+    net2 = copy.deepcopy(net)
+    box = run_sc(net, **o)
+    ctx.count("chain_case_%s" % o["case"])
+    ppc = net._ppc
+    bl = net._pd2ppc_lookups["bus"]
+    perm = [int(bl[b]) for b in net.bus.index]
+    n, orc, sn, sq, xk = chain_terms(net, o, ppc)
+    Y = box["Y"][0][np.ix_(perm, perm)]
+    terms.append("run_chain_ybus %s %s %s" % (n, cq.q(sn), orc))
+    pend.append(("chain Ybus", [[[float(Y[i, j].real), float(Y[i, j].imag)] for j in range(4)] for i in range(4)], desc))
+    terms.append("run_chain_spec %s %s %s" % (n, sq, xk))
+    pend.append(("chain rk_ohm/xk_ohm vs the ohmic series formula",
+                 [[float(net.res_bus_sc.rk_ohm.at[b]), float(net.res_bus_sc.xk_ohm.at[b])] for b in net.bus.index], desc))
+    k = rng.randrange(4)
+    zcol = np.linalg.solve(box["Y"][0], np.eye(4)[:, perm[k]])[perm]
+    if "Zbus" in ppc["internal"] and o["inverse_y"]:
+        zcol = np.asarray(ppc["internal"]["Zbus"])[:, perm[k]][perm]
+    terms.append("run_chain_residual %s %s %s %d%%nat %s" % (n, cq.q(sn), orc, k, cq.lst(
+        ["(mkC %s %s)" % (cq.q(float(z.real), bits=48), cq.q(float(z.imag), bits=48)) for z in zcol])))
+    pend.append(("chain residual Ybus(model) * Zbus[:,k](impl) - e_k", [[0.0, 0.0]] * 4, desc, 1e-8))
+    # Kirchhoff at the end bus (C18_chain_line2_current): res_line_sc of a fault at bus 3 alone
+    n3 = copy.deepcopy(net2)
+    box3 = run_sc(n3, bus=int(net.bus.index[3]), **o)
+    il, ib = float(n3.res_line_sc.ikss_to_ka.iloc[1]), float(n3.res_bus_sc.ikss_ka.iloc[0])
+    # model of _calc_branch_currents_complex for the last line and the transformer (white-box inputs: the branch row, the
+    # Zbus column of the faulted bus from the captured Ybus, ikss1 = c / z_equiv)
+    from pandapower.pypower.idx_brch import BR_R, BR_X, TAP, F_BUS, T_BUS
+    from pandapower.pypower.idx_bus import BASE_KV
+    from pandapower.pypower.idx_bus_sc import R_EQUIV, X_EQUIV, C_MAX, C_MIN
+    p3 = n3._ppc
+    bl3 = n3._pd2ppc_lookups["bus"]
+    kf = int(bl3[net.bus.index[3]])
+    z3 = np.linalg.solve(box3["Y"][0], np.eye(4)[:, kf])
+    cc = float(p3["bus"][kf, C_MAX if o["case"] == "max" else C_MIN])
+    ik1 = cc / complex(float(p3["bus"][kf, R_EQUIV]), float(p3["bus"][kf, X_EQUIV]))
+    valid_v = not bool(np.any(p3["branch"][:, TAP].real != 1))
+    s3 = math.sqrt(3.0)
+    for (el, i, tab, cf, ct) in (("line", 1, n3.res_line_sc, "ikss_from", "ikss_to"), ("trafo", 0, n3.res_trafo_sc, "ikss_hv", "ikss_lv")):
+        f0, _ = n3._pd2ppc_lookups["branch"][el]
+        br = p3["branch"][f0 + i]
+        fb, tb = int(br[F_BUS].real), int(br[T_BUS].real)
+        mk = lambda z: "(mkC %s %s)" % (cq.q(float(z.real)), cq.q(float(z.imag)))
+        terms.append("run_branch_i %s %s %s %s %s %s %s" % (mk(complex(br[BR_R].real, br[BR_X].real)), cq.q(float(br[TAP].real)),
+                                                          cq.b(valid_v), mk(complex(cc, 0)), mk(ik1), mk(z3[fb]), mk(z3[tb])))
+        exp = []
+        for col, bb in ((cf, fb), (ct, tb)):
+            base_i = float(p3["bus"][bb, BASE_KV]) * s3 / sn          # kA = p.u. / baseI
+            mag, deg = float(tab[col + "_ka"].iloc[i]), float(tab[col + "_degree"].iloc[i])
+            exp.append([mag * math.cos(math.radians(deg)) * base_i, mag * math.sin(math.radians(deg)) * base_i])
+        pend.append(("chain %s current (p.u.) of a fault at the end bus" % el, exp, desc, 1e-9))
+    if rel(il, ib) > TOL or rel(float(n3.res_trafo_sc.ikss_lv_ka.iloc[0]), ib) > TOL:
+        ctx.violation("spec", "chain: fault at the end bus: ikss_ka=%r but the last line carries %r" % (ib, il), desc)
+    # the same net with another sn_mva: same results (oracle for C18_chain_thevenin_sn_invariant)
+    net2.sn_mva = float(rng.choice([x for x in (1, 10, 100, 3) if x != sn1]))
+    sc.calc_sc(net2, **o)
+    for col in ("ikss_ka", "rk_ohm", "xk_ohm", "skss_mw"):
+        for b in net.bus.index:
+            a, bb = float(net.res_bus_sc.at[b, col]), float(net2.res_bus_sc.at[b, col])
+            if rel(a, bb) > 1e-7:
+                ctx.violation("spec", "chain bus %d: %s changes from %r to %r when sn_mva goes from %r to %r" % (b, col, a, bb, sn1, net2.sn_mva), desc)
+    ctx.case(desc, nontrivial=True)
+
+
+
+# ------------------------------------------------------------------ branch results: Kirchhoff at the buses
+def branch_kcl(ctx, rng, net0, o, res, desc, has_cs):
+    """res_line_sc / res_trafo_sc of a fault at ONE bus k: the branch currents entering k plus the currents of the voltage
+    sources at k (c Un / (sqrt3 Z_source), independent of the impl) add up to ikss_ka of k; at every other bus without a
+    source they add up to zero (3ph: complex sums).  2ph / 1ph (magnitudes only): at a faulted bus with a single branch
+    and no source the branch carries the bus current."""
+    if has_cs:
+        ctx.count("branch_results_skipped_current_sources")
+        return
+    fault = o["fault"]
+    net = copy.deepcopy(net0)
+    ysrc = independent_sources(net, o["case"], o["lv_tol_percent"])
+    buses = list(net.bus.index)
+    inc = {b: [] for b in buses}
+    for r in net.line.itertuples():
+        if r.in_service:
+            inc[r.from_bus].append(("line", r.Index, "from")); inc[r.to_bus].append(("line", r.Index, "to"))
+    for r in net.trafo.itertuples():
+        if r.in_service:
+            inc[r.hv_bus].append(("trafo", r.Index, "hv")); inc[r.lv_bus].append(("trafo", r.Index, "lv"))
+    if fault == "3ph":
+        k = rng.choice(buses)
+    else:
+        leaves = [b for b in buses if len(inc[b]) == 1 and ysrc[b] == 0]
+        if not leaves:
+            ctx.count("branch_results_no_leaf_bus")
+            return
+        k = rng.choice(leaves)
+    o2 = dict(o)
+    o2["branch_results"] = True
+    try:
+        sc.calc_sc(net, bus=k, **o2)
+    except Exception as e:
+        ctx.violation("spec", "calc_sc(bus=%d, branch_results=True) raises %s: %s" % (k, type(e).__name__, e), desc)
+        return
+    ctx.count("branch_results_%s" % fault)
+    ik = float(net.res_bus_sc.ikss_ka.at[k])
+    if rel(ik, float(res.at[k, "ikss_ka"])) > 1e-7:
+        ctx.violation("spec", "bus %d: ikss_ka=%r when faulted alone with branch results, %r in the all-bus run" % (k, ik, float(res.at[k, "ikss_ka"])), desc)
+    vn = float(net.bus.vn_kv.at[k])
+    c = ((1.1 if o["lv_tol_percent"] == 10 else 1.05) if o["case"] == "max" else 0.95) if vn < 1 else (1.1 if o["case"] == "max" else 1.0)
+
+    def cur(tab, i, side):
+        col = {"from": "ikss_from", "to": "ikss_to", "hv": "ikss_hv", "lv": "ikss_lv"}[side]
+        mag = float(tab.at[i, col + "_ka"])
+        deg = float(tab.at[i, col + "_degree"]) if fault == "3ph" else 0.0
+        return mag * complex(math.cos(math.radians(deg)), math.sin(math.radians(deg)))
+
+    tabs = {"line": net.res_line_sc, "trafo": net.res_trafo_sc}
+    if fault != "3ph":
+        el, i, side = inc[k][0]
+        ib = abs(cur(tabs[el], i, side))
+        if rel(ib, ik) > 1e-6:
+            ctx.violation("spec", "%s fault at the stub bus %d: ikss_ka=%r but its only branch (%s %d) carries %r" % (fault, k, ik, el, i, ib), desc)
+        else:
+            ctx.count("branch_kcl_ok")
+        return
+    rf, xf = o.get("r_fault_ohm", 0.0), o.get("x_fault_ohm", 0.0)
+    for b in buses:
+        into = -sum((cur(tabs[el], i, side) for el, i, side in inc[b]), 0j)
+        if b == k:
+            if ysrc[b] != 0 and (rf > 0 or xf > 0):
+                continue
+            tot = abs(into + c * vn / math.sqrt(3.0) * ysrc[b])
+            if rel(tot, ik) > 1e-6:
+                ctx.violation("spec", "fault at bus %d: branch currents into the bus + source currents = %r kA but ikss_ka = %r" % (k, tot, ik), desc)
+            else:
+                ctx.count("branch_kcl_ok")
+        elif ysrc[b] == 0:
+            if abs(into) > 1e-6 * max(1.0, ik):
+                ctx.violation("spec", "fault at bus %d: branch currents at the source-free bus %d add up to %r kA" % (k, b, abs(into)), desc)
+            else:
+                ctx.count("branch_kcl_ok")
+
+
 # ------------------------------------------------------------------ one case
 def one_case(ctx, rng, k, terms, pend, fixed=None):
     from pandapower.pypower.idx_bus_sc import R_EQUIV, X_EQUIV, IKSS1, IKSS2, KAPPA, IP, SKSS, C_MAX, C_MIN, R_EQUIV_OHM, X_EQUIV_OHM
@@ -207,6 +595,8 @@ def one_case(ctx, rng, k, terms, pend, fixed=None):
     else:
         net, meshed, o = pp.from_json_string(fixed["net"]), True, dict(fixed["opts"])
     desc = {"net": pp.to_json(net), "opts": o}
+    net0 = copy.deepcopy(net)        # the untouched input for the metamorphic / branch-result runs
+    net1 = copy.deepcopy(net)
     nontriv = meshed or o.get("r_fault_ohm", 0) > 0 or o.get("x_fault_ohm", 0) > 0 or bool((net.bus.vn_kv < 1).any())
     try:
         box = run_sc(net, **o)
@@ -221,18 +611,32 @@ def one_case(ctx, rng, k, terms, pend, fixed=None):
     sn = float(ppc["baseMVA"])
     bl = net._pd2ppc_lookups["bus"]
     ph2 = o["fault"] == "2ph"
+    ph1 = o["fault"] == "1ph"
+    thev0 = independent_thevenin_zero(net, o["case"], o["lv_tol_percent"]) if ph1 else None
+    bus0 = box.get("ppci0_bus")
+    if ph1 and thev0 is not None:
+        ctx.count("independent_zero_sequence_nets")
+    for vg in (net.trafo.vector_group.values if ph1 else []):
+        ctx.count("1ph_vector_group_" + vg)
     s3, s2 = math.sqrt(3.0), math.sqrt(2.0)
     rf, xf = o.get("r_fault_ohm", 0.0), o.get("x_fault_ohm", 0.0)
     thev = independent_thevenin(net, o["case"], o["lv_tol_percent"])
     if thev is not None:
         ctx.count("independent_thevenin_nets")
-    Y = box["Y"][0] if len(box["Y"]) == 1 else None
+    Y = box["Y"][0] if len(box["Y"]) in (1, 2) else None
     zdiag = exact_diag(Y) if (Y is not None and Y.shape[0] <= 9) else None
+    zdiag0 = exact_diag(box["Y"][1]) if (ph1 and len(box["Y"]) == 2 and box["Y"][1].shape[0] <= 9) else None
+    bus1 = box["ppci_bus"] if ph1 else ppc["bus"]        # positive-sequence bus rows
     for b in net.bus.index:
-        row = ppc["bus"][bl[b]]
+        row = bus1[bl[b]]
         vn = float(net.bus.vn_kv.at[b])
         c = float(row[C_MAX] if o["case"] == "max" else row[C_MIN])
         c_spec = ((1.1 if o["lv_tol_percent"] == 10 else 1.05) if o["case"] == "max" else 0.95) if vn < 1 else (1.1 if o["case"] == "max" else 1.0)
+        if ph1:
+            _bus_1ph(ctx, net, o, b, row, bus0[bl[b]] if bus0 is not None else None, res, thev, thev0, c, c_spec, vn, sn, rf, xf,
+                     terms, pend, desc, zdiag[int(bl[b])] if zdiag is not None else None,
+                     zdiag0[int(bl[b])] if zdiag0 is not None else None)
+            continue
         ik, sk, ipk, rk, xk = (float(res.at[b, x]) for x in ("ikss_ka", "skss_mw", "ip_ka", "rk_ohm", "xk_ohm"))
         zk = math.hypot(rk, xk)
         bad = []
@@ -282,7 +686,7 @@ def one_case(ctx, rng, k, terms, pend, fixed=None):
         others = (net.gen.bus == r.bus).any() or (net.ext_grid.bus == r.bus).sum() > 1
         if others:
             continue
-        row = ppc["bus"][bl[r.bus]]
+        row = bus1[bl[r.bus]]
         c = float(row[C_MAX] if o["case"] == "max" else row[C_MIN])
         rx = float(getattr(r, "rx_%s" % o["case"]))
         terms.append("run_eg %s %s %s %s %s" % (cq.q(c), cq.q(float(getattr(r, "s_sc_%s_mva" % o["case"]))), cq.q(rx), cq.q(sn),
@@ -290,13 +694,13 @@ def one_case(ctx, rng, k, terms, pend, fixed=None):
         pend.append(("ext_grid GS/BS", [float(row[GS]), float(row[BS])], desc))
     # ---- metamorphic runs
     has_cs = o["case"] == "max" and bool(len(net.sgen)) and bool(net.sgen.in_service.any())
-    meta = rng.choice(["sn_mva", "inverse_y", "inverse_y", "subset"] if has_cs else ["sn_mva", "inverse_y", "subset", "2ph"]) \
+    meta = rng.choice(["sn_mva", "inverse_y", "inverse_y", "subset"] if (has_cs or ph1) else ["sn_mva", "inverse_y", "subset", "2ph"]) \
         if fixed is None else fixed.get("meta", "sn_mva")
     if has_cs:
         ctx.count("current_sources_%s" % o["fault"])
     desc["meta"] = meta
     ctx.count("metamorphic_" + meta)
-    n2 = pp.from_json_string(desc["net"])
+    n2 = net0
     o2 = dict(o)
     bus_arg = None
     if meta == "sn_mva":
@@ -315,8 +719,20 @@ def one_case(ctx, rng, k, terms, pend, fixed=None):
         return
     r2 = n2.res_bus_sc
     for b in r2.index:
-        for col in ("ikss_ka", "ip_ka", "rk_ohm", "xk_ohm", "skss_mw"):
+        for col in (("ikss_ka", "rk_ohm", "xk_ohm", "rk0_ohm", "xk0_ohm") if ph1 else ("ikss_ka", "ip_ka", "rk_ohm", "xk_ohm", "skss_mw")):
             a, bb = float(res.at[b, col]), float(r2.at[b, col])
+            if not (math.isfinite(a) or math.isfinite(bb)):
+                continue
+            if ph1 and col in ("rk_ohm", "xk_ohm", "rk0_ohm", "xk0_ohm"):
+                # 1ph: the impedances are compared as complex numbers (|dZ| <= 1e-7 |Z|): the zero-sequence network of an
+                # isolated MV level is capacitive, |R0| << |X0|, and the two solvers differ by 1e-11 |Z0| in R0
+                cr, cx = ("rk_ohm", "xk_ohm") if col in ("rk_ohm", "xk_ohm") else ("rk0_ohm", "xk0_ohm")
+                za = complex(float(res.at[b, cr]), float(res.at[b, cx]))
+                zb = complex(float(r2.at[b, cr]), float(r2.at[b, cx]))
+                if math.isfinite(abs(za)) and math.isfinite(abs(zb)) and crel(za, zb) > 1e-7:
+                    ctx.violation("spec", "bus %d: %s+j%s changes from %r to %r under %s" % (b, cr, cx, za, zb, meta), desc)
+                    break
+                continue
             if meta == "2ph":
                 if col in ("rk_ohm", "xk_ohm"):
                     fac = 1.0
@@ -329,6 +745,8 @@ def one_case(ctx, rng, k, terms, pend, fixed=None):
                 kind = "spec"
                 ctx.violation(kind, "bus %d: %s changes from %r to %r under %s" % (b, col, a, bb, meta), desc)
                 break
+    if fixed is None and rng.random() < 0.6:
+        branch_kcl(ctx, rng, net1, o, res, desc, has_cs)
     ctx.case(desc, nontrivial=nontriv, sample={"opts": o, "res_bus_sc": json.loads(res.to_json())} if k < 3 else None)
 
 
@@ -341,27 +759,39 @@ def run(ctx):
             if f.endswith(".json"):
                 one_case(ctx, rng, 99, terms, pend, fixed=json.load(open(os.path.join(d, f))))
                 ctx.count("corpus_cases")
-    for k in range(ctx.n(90, 1200)):
+    for k in range(ctx.n(80, 1200)):
         one_case(ctx, rng, k, terms, pend)
-    model = ctx.coq_eval("c18", "Base.QN C18.Model", terms, shard=500)
+        if k % 5 == 0:          # 16 / 240 chains, spread over the shards (their terms are the heaviest)
+            chain_case(ctx, rng, terms, pend)
+    model = ctx.coq_eval("c18", "Base.QN Base.QC C18.Model C18.ChainModel", terms, shard=150)
     _compare(ctx, pend, model)
 
 
+def _flat(x):
+    if isinstance(x, (list, tuple)):
+        return [z for y in x for z in _flat(y)]
+    return [x]
+
+
 def _compare(ctx, pend, model):
-    for (what, impl, desc), mod in zip(pend, model):
+    for pe, mod in zip(pend, model):
+        what, impl, desc = pe[0], pe[1], pe[2]
+        atol = pe[3] if len(pe) > 3 else 1e-12
         ctx.corr_checked += 1
-        im = impl if isinstance(impl, list) else [impl]
-        mo = mod if isinstance(mod, list) else [mod]
-        if len(im) != len(mo) or any(rel(float(a), float(b)) > 1e-9 and abs(float(a) - float(b)) > 1e-12 for a, b in zip(im, mo)):
+        im = _flat(impl)
+        mo = _flat(mod)
+        if len(im) != len(mo) or any(rel(float(a), float(b)) > 1e-9 and abs(float(a) - float(b)) > atol for a, b in zip(im, mo)):
             ctx.disagreement("%s: impl=%s model=%s" % (what, im, [float(x) for x in mo]), desc)
 
 
 def replay(ctx, rec):
     case = rec.get("case", rec)
-    if "net" in case and "opts" in case:
+    if case.get("chain"):
+        run(ctx)
+    elif "net" in case and "opts" in case:
         terms, pend = [], []
         one_case(ctx, ctx.rng, 0, terms, pend, fixed=case)
-        model = ctx.coq_eval("c18", "Base.QN C18.Model", terms, shard=500)
+        model = ctx.coq_eval("c18", "Base.QN Base.QC C18.Model C18.ChainModel", terms, shard=150)
         _compare(ctx, pend, model)
     else:
         run(ctx)
